@@ -1,6 +1,7 @@
 package main
 
 import (
+	"github.com/libp2p/go-libp2p/core/crypto"
 	"bytes"
 	"crypto/sha256"
 	"crypto/sha512"
@@ -536,20 +537,54 @@ func genCid(c *Ctx) {
 			var id cid.Cid
 			var err error
 			var id2 cid.Cid
+			// a decoded token sealed again (by both decoders' results, buffered and streaming): the CID that comes with the
+			// new bytes is the CID of those bytes, whatever the token remembers of where it came from
+			reseal := func(tk interface {
+				ToSealed(crypto.PrivKey) ([]byte, cid.Cid, error)
+				ToSealedWriter(io.Writer, crypto.PrivKey) (cid.Cid, error)
+			}) bool {
+				b2, idb, err := tk.ToSealed(s.iss.priv)
+				if err != nil {
+					return false
+				}
+				d2 := sha256.Sum256(b2)
+				if !bytes.Equal(idb.Bytes(), append([]byte{1, 0x71, 0x12, 0x20}, d2[:]...)) {
+					return false
+				}
+				var w2 bytes.Buffer
+				idw, err := tk.ToSealedWriter(&w2, s.iss.priv)
+				if err != nil {
+					return false
+				}
+				d3 := sha256.Sum256(w2.Bytes())
+				return bytes.Equal(idw.Bytes(), append([]byte{1, 0x71, 0x12, 0x20}, d3[:]...))
+			}
+			resealed := true
 			switch s.t.(type) {
 			case *delegation.Token:
-				_, id, err = delegation.FromSealed(s.b)
+				var t1, t2 *delegation.Token
+				t1, id, err = delegation.FromSealed(s.b)
 				if err == nil {
-					_, id2, err = delegation.FromSealedReader(iotest.DataErrReader(bytes.NewReader(s.b)))
+					t2, id2, err = delegation.FromSealedReader(iotest.DataErrReader(bytes.NewReader(s.b)))
+				}
+				if err == nil {
+					resealed = reseal(t1) && reseal(t2)
 				}
 			default:
-				_, id, err = invocation.FromSealed(s.b)
+				var t1, t2 *invocation.Token
+				t1, id, err = invocation.FromSealed(s.b)
 				if err == nil {
-					_, id2, err = invocation.FromSealedReader(iotest.DataErrReader(bytes.NewReader(s.b)))
+					t2, id2, err = invocation.FromSealedReader(iotest.DataErrReader(bytes.NewReader(s.b)))
+				}
+				if err == nil {
+					resealed = reseal(t1) && reseal(t2)
 				}
 			}
 			if err != nil || !id.Equals(id2) {
 				return WErr()
+			}
+			if !resealed {
+				return WStr("a decoded token sealed again: the cid is not the cid of the new bytes")
 			}
 			return WBytes(id.Bytes())
 		})
